@@ -373,6 +373,8 @@ void PeerHandshake(Peer &p)
   if(SSL_is_init_finished(t->ssl.get())) return;
   t->remainingTime = Duration(0);
   try { (void)SSL_do_handshake(t->ssl.get()); } catch(std::exception const &) {}
+  // the handshake was driven behind the glue's back: do not leave its cached WANT_READ behind
+  if(SSL_is_init_finished(t->ssl.get())) t->lastError = SSL_ERROR_NONE;
 #else
   (void)p;
 #endif
